@@ -379,6 +379,20 @@ fn scenario() -> impl Strategy<Value = Vec<Step>> {
             Step::KillNode { node, rst: false },
             Step::Traffic { tasks: 2, per_task: 30, pause_ms: 5, prepare_every: 0 },
         ]),
+        // a call that fails on one connection, retried with the same name: Ok must again mean "everywhere"
+        (0u8..3, any::<bool>(), 0u8..4, prop_oneof![Just(UseFault::Error), Just(UseFault::WrongName)], any::<bool>()).prop_map(|(ks, cs, node, fault, first_ok)| {
+            let mut v = vec![];
+            if first_ok {
+                v.push(Step::Use { ks, cs, traffic: 0 });
+            }
+            v.extend([
+                Step::UseRule { node, count: 1, fault },
+                Step::Use { ks, cs, traffic: 0 },
+                Step::Use { ks, cs, traffic: 0 },
+                Step::Traffic { tasks: 3, per_task: 25, pause_ms: 1, prepare_every: 0 },
+            ]);
+            v
+        }),
         Just(vec![]),
     ]
 }
@@ -493,7 +507,7 @@ pub fn name_case() -> BoxedStrategy<NameCase> {
 }
 
 pub fn run(ctx: &Ctx, rep: &mut Report) {
-    rep.rule = "histories: a mock cluster of 2..4 nodes (0..2 of them hidden at first), pool of 1..4 connections per node, optional keyspace on the builder; steps = use_keyspace(one of 3 names, quoted or not) with concurrent unconstrained requests / bursts of requests from 1..4 tasks (QUERY, or PREPARE+EXECUTE) / the mock kills one connection or all connections of a node (FIN or RST) / refuses or accepts reconnects / a hidden node is announced (event or refresh) / the next k USE frames at a node are answered late (5..250 ms), with an error, with another name, or by closing; scenario templates aim at the windows (slow USE on a reconnect under traffic, keyspace changed while a reconnect's USE is pending, node added with slow USE, USE refused on reconnect). Oracle: every frame of a request issued while a use_keyspace promise was in force (last call returned Ok, none running; or the builder's keyspace) arrives on a connection whose acknowledged keyspace - the mock's own per-connection state, updated when the SetKeyspace frame is written - equals the promised one. names: 0..60 characters, mostly identifier characters with 0..4 hostile ones (quotes, ';', space, NUL, newline, non-ASCII letters and digits, anything) at random positions, lengths biased to 0/48/49; oracle: refused with BadKeyspaceName iff not 1..48 of [A-Za-z0-9_], and then no USE statement is sent at all; otherwise Ok and every USE statement is exactly `USE name` / `USE \"name\"`. Non-trivial = (histories) >= 5 constrained frames and at least one on a connection opened after the first request; (names) a non-empty invalid name.".into();
+    rep.rule = "histories: a mock cluster of 2..4 nodes (0..2 of them hidden at first), pool of 1..4 connections per node, optional keyspace on the builder; steps = use_keyspace(one of 3 names, quoted or not) with concurrent unconstrained requests / bursts of requests from 1..4 tasks (QUERY, or PREPARE+EXECUTE) / the mock kills one connection or all connections of a node (FIN or RST) / refuses or accepts reconnects / a hidden node is announced (event or refresh) / the next k USE frames at a node are answered late (5..250 ms), with an error, with another name, or by closing; scenario templates aim at the windows (slow USE on a reconnect under traffic, keyspace changed while a reconnect's USE is pending, node added with slow USE, USE refused on reconnect, a call that failed on one connection retried with the same name). Oracle: every frame of a request issued while a use_keyspace promise was in force (last call returned Ok, none running; or the builder's keyspace) arrives on a connection whose acknowledged keyspace - the mock's own per-connection state, updated when the SetKeyspace frame is written - equals the promised one. names: 0..60 characters, mostly identifier characters with 0..4 hostile ones (quotes, ';', space, NUL, newline, non-ASCII letters and digits, anything) at random positions, lengths biased to 0/48/49; oracle: refused with BadKeyspaceName iff not 1..48 of [A-Za-z0-9_], and then no USE statement is sent at all; otherwise Ok and every USE statement is exactly `USE name` / `USE \"name\"`. Non-trivial = (histories) >= 5 constrained frames and at least one on a connection opened after the first request; (names) a non-empty invalid name.".into();
     rep.trusted_base = vec!["mock cluster (vkit::mock, reference codec), real loopback TCP; keyspace tracking in the mock".into()];
     rep.assumptions = vec![
         "two use_keyspace calls never overlap (documented as unsupported)".into(),
